@@ -408,9 +408,18 @@ impl Runner {
             if pre.raw[2] + pre.raw[3] > pre.delegated {
                 self.bump("states_with_unrecognised_slash");
             }
+            // genesis ends with the first transaction after the hub has been wired (a staged
+            // deployment takes several UpdateConfig messages, with strangers' messages in between)
             if let Op::Tx { call, .. } = op {
-                if !matches!(call, Call::Hub(HubMsg::UConfig(..))) {
-                    self.genesis_done = true;
+                if !self.genesis_done && !matches!(call, Call::Hub(HubMsg::UConfig(..))) {
+                    let w = self.chain.hub_wiring();
+                    if w[0].is_some() && w[1].is_some() && w[2].is_some() && w[3].is_some() && w[5].is_some() {
+                        self.genesis_done = true;
+                        if w[0] != Some(DISP) || w[1] != Some(REG) || w[2] != Some(BSEI) || w[3] != Some(STSEI) || w[5] != Some(REWARD) {
+                            // wired to something else than the six contracts: outside E3
+                            self.envelope = false;
+                        }
+                    }
                 }
             }
             if r.ok && self.genesis_done && leaves_envelope(op) {
